@@ -920,3 +920,122 @@ func genPLargeWrap(r *rng, id string, cnt counters, emit func(line, out string))
 	emit("E", "E")
 	return append(e1.finds, e2.finds...)
 }
+
+// genPMidSA: the greedy suffix-array parser at a geometry of a few KiB — matches longer than 1 KiB
+// (anything that treats long matches in batches, e.g. marking their positions), blocks of a few
+// hundred to a few thousand bytes, copies that start inside earlier long matches. Model
+// correspondence and the brute-force longest-match oracle both apply (one script per shard: the
+// list-based suffix sort of the model needs about a second at this size).
+func genPMidSA(r *rng, id string, cnt counters, emit func(line, out string)) *pExec {
+	c := pcfg{kind: "GSAP", f: map[string]int{}}
+	bs := r.rangeIn(2400, 3200)
+	c.f["BufferSize"] = bs
+	c.f["WindowSize"] = r.pick(bs, bs+10, bs)
+	c.f["ShrinkSize"] = r.pick(bs/2, 100, bs-1)
+	c.f["BlockSize"] = r.pick(bs, 1500, 700, 2100)
+	c.f["MinMatchLen"] = r.pick(3, 2, 4)
+	e, st := newPExec(c, cnt)
+	emit(e.header(id), fmt.Sprintf("S %s %s", id, st))
+	e.lines = append(e.lines, e.header(id))
+	if st != "ok" {
+		emit("E", "E")
+		return e
+	}
+	do := func(line string) string {
+		out := e.step(line)
+		emit(line, out)
+		return out
+	}
+	x := mixBytes(r.intn(1<<20), r.rangeIn(1100, 1400))
+	var data []byte
+	data = append(data, x...)
+	data = append(data, mixBytes(r.intn(1<<20), r.rangeIn(3, 40))...)
+	a := r.intn(30)
+	data = append(data, x[a:a+r.rangeIn(1030, len(x)-a)]...) // a copy longer than 1 KiB
+	data = append(data, byte(r.intn(256)))
+	for len(data) < bs-200 {
+		// further copies that start at odd places of the first segment, e.g. just behind a 1 KiB boundary
+		s0 := r.pick(1024, 1025, 1026, 1023, r.intn(len(x)-40), 2*1025-len(x))
+		if s0 < 0 || s0 > len(x)-20 {
+			s0 = r.intn(len(x) - 40)
+		}
+		l := r.rangeIn(5, min(90, len(x)-s0))
+		data = append(data, x[s0:s0+l]...)
+		data = append(data, byte(r.intn(256)))
+	}
+	if len(data) > bs {
+		data = data[:bs]
+	}
+	cut := r.pick(len(data), len(data), r.rangeIn(1, len(data)))
+	do("write " + hx(data[:cut]))
+	fl := r.pick(0, 0, 1)
+	for g := 0; g < 12 && !e.dead && e.unparsed() > 0; g++ {
+		do(fmt.Sprintf("parse %d", fl))
+	}
+	if cut < len(data) {
+		do("write " + hx(data[cut:]))
+		for g := 0; g < 12 && !e.dead && e.unparsed() > 0; g++ {
+			do(fmt.Sprintf("parse %d", fl))
+		}
+	}
+	cnt.inc("p.midsa")
+	emit("E", "E")
+	return e
+}
+
+// genPOsapFar: optimality of OSAP when candidates lie more than 2^20 bytes back (the offset part of
+// XZCost grows with the offset, so a far 3-byte match can cost more than its literals while a near
+// 2-byte match pays off). The history is skipped with Parse(nil); the last, small block is checked
+// against the brute-force optimum (oracle only; the block is small, so the oracle is cheap).
+func genPOsapFar(r *rng, id string, cnt counters, emit func(line, out string)) *pExec {
+	c := pcfg{kind: "OSAP", f: map[string]int{}}
+	hist := r.rangeIn(1_060_000, 1_250_000)
+	c.f["BufferSize"] = hist + 200000
+	c.f["WindowSize"] = hist + 100000
+	c.f["BlockSize"] = 0 // 128 KiB
+	c.f["MinMatchLen"] = r.pick(2, 2, 3)
+	c.f["MaxMatchLen"] = r.pick(0, 273, 16)
+	e, st := newPExec(c, cnt)
+	emit(fmt.Sprintf("S %s X", id), fmt.Sprintf("S %s ok", id))
+	e.lines = append(e.lines, e.header(id))
+	if st != "ok" {
+		emit("E", "E")
+		return e
+	}
+	// planted n-grams: far ones at the very beginning, near ones just before the last block; the
+	// filler uses other byte values
+	filler := func(n int) []byte {
+		p := make([]byte, n)
+		for i := range p {
+			p[i] = byte('a' + r.intn(6))
+		}
+		return p
+	}
+	far := []byte("XYZ-UVW-KLMN-")
+	var data []byte
+	data = append(data, far...)
+	data = append(data, filler(hist)...)
+	data = append(data, []byte("XY.UV.KLM.")...) // near: the 2- and 3-byte prefixes of the far n-grams
+	data = append(data, filler(r.rangeIn(0, 30))...)
+	// make the last block start at a block boundary: pad so that len(data) is a multiple of 128 KiB
+	for len(data)%(128<<10) != 0 {
+		data = append(data, byte('a'+r.intn(6)))
+	}
+	last := append([]byte("XYZ"), filler(r.rangeIn(0, 3))...)
+	last = append(last, []byte("UVW")...)
+	last = append(last, filler(r.rangeIn(0, 3))...)
+	last = append(last, []byte("KLMN")...)
+	last = append(last, filler(r.rangeIn(0, 4))...)
+	data = append(data, last...)
+	e.step("write " + hx(data))
+	for g := 0; g < 40 && !e.dead && e.unparsed() > len(last); g++ {
+		e.step("parsenil")
+	}
+	e.nilUsed = false
+	for g := 0; g < 4 && !e.dead && e.unparsed() > 0; g++ {
+		e.step("parse 0")
+	}
+	cnt.inc("p.large.osapfar")
+	emit("E", "E")
+	return e
+}
